@@ -49,6 +49,10 @@ func (e ev) String() string {
 		return fmt.Sprintf("start(k%d,%s)", e.Key, e.Ver)
 	case "cancel":
 		return fmt.Sprintf("cancel(w%d)", e.I)
+	case "cancelput":
+		return fmt.Sprintf("cancel(w%d)+put+start", e.I)
+	case "startput":
+		return fmt.Sprintf("start(k%d,cur)+put", e.Key)
 	}
 	return fmt.Sprintf("%s(k%d)", e.K, e.Key)
 }
@@ -63,6 +67,8 @@ var eventAlphabet = []ev{
 	{K: "cancel", I: 0}, {K: "cancel", I: 1}, {K: "cancel", I: 2},
 	{K: "put", Key: 1}, {K: "put", Key: 2}, {K: "putmany1", Key: 1}, {K: "putmany2", Key: 1},
 	{K: "casok", Key: 1}, {K: "casconf", Key: 1}, {K: "delete", Key: 1}, {K: "create", Key: 1}, {K: "delete", Key: 2},
+	// combined events: no quiescence between the parts (a leaver races a mutation and a newcomer)
+	{K: "cancelput", I: 0}, {K: "cancelput", I: 1}, {K: "startput", Key: 1},
 }
 
 type swaiter struct {
@@ -72,6 +78,7 @@ type swaiter struct {
 	res     chan error
 	done    bool // model: has it returned?
 	expect  string
+	alt     string // second legal status when two things happened without quiescence in between
 	started int
 }
 
@@ -140,6 +147,10 @@ func runScript(sc script, visit func(string)) *vio {
 			default:
 				got = "parked"
 			}
+			if got == w.alt && w.alt != "" {
+				w.expect, w.alt = got, "" // the race went the other way: both are legal
+			}
+			w.alt = ""
 			if got != w.expect {
 				kind := "missed"
 				if w.expect == "parked" {
@@ -220,6 +231,47 @@ func runScript(sc script, visit func(string)) *vio {
 			if w.expect == "parked" {
 				w.expect = "ctx"
 			}
+		case "cancelput":
+			// waiter i gives up; at the same time its key is overwritten and a newcomer waits for the new
+			// version - nothing is allowed to settle in between
+			w := ws[e.I]
+			wasParked := w.expect == "parked"
+			w.cancel()
+			r, err := s.Put(bg, kvs.Record{Key: w.key, Value: []byte("q")})
+			if err != nil {
+				cleanup()
+				return &vio{"inmem/Put/error", err.Error()}
+			}
+			ctx, cancel := context.WithCancel(bg)
+			nw := &swaiter{key: w.key, ver: r.Version, cancel: cancel, res: make(chan error, 1), started: n, expect: "parked"}
+			n++
+			go func() { nw.res <- s.WaitForVersionChange(ctx, nw.key, nw.ver) }()
+			mutated(w.key) // everybody parked on the key (the leaver included) sees the new version ...
+			if wasParked {
+				w.alt = "ctx" // ... unless the leaver noticed its context first
+			}
+			ws = append(ws, nw)
+		case "startput":
+			// a waiter for the current version starts while the key is being overwritten
+			ver := cur[k]
+			if ver == "" {
+				ver = "none"
+			}
+			ctx, cancel := context.WithCancel(bg)
+			nw := &swaiter{key: k, ver: ver, cancel: cancel, res: make(chan error, 1), started: n}
+			n++
+			go func() { nw.res <- s.WaitForVersionChange(ctx, nw.key, nw.ver) }()
+			if _, err := s.Put(bg, kvs.Record{Key: k, Value: []byte("r")}); err != nil {
+				cleanup()
+				return &vio{"inmem/Put/error", err.Error()}
+			}
+			mutated(k)
+			// whatever the order of the check, the park and the Put was: the version differs now
+			nw.expect = "nil"
+			if ver == "none" {
+				nw.alt = "ErrNotExist" // the key did not exist yet when the waiter looked
+			}
+			ws = append(ws, nw)
 		case "put":
 			if _, err := s.Put(bg, kvs.Record{Key: k, Value: []byte("p")}); err != nil {
 				cleanup()
@@ -284,10 +336,10 @@ func legal(prefix []ev, e ev) bool {
 	starts := 0
 	cancelled := map[int]bool{}
 	for _, p := range prefix {
-		if p.K == "start" {
+		if p.K == "start" || p.K == "startput" || p.K == "cancelput" {
 			starts++
 		}
-		if p.K == "cancel" {
+		if p.K == "cancel" || p.K == "cancelput" {
 			cancelled[p.I] = true
 		}
 	}
@@ -296,6 +348,10 @@ func legal(prefix []ev, e ev) bool {
 		return starts < 3
 	case "cancel":
 		return e.I < starts && !cancelled[e.I]
+	case "cancelput":
+		return e.I < starts && !cancelled[e.I] && starts < 3
+	case "startput":
+		return starts < 3
 	}
 	return true
 }
@@ -306,7 +362,7 @@ func enumerate(depth int, emit func(script)) {
 		if len(evs) == depth {
 			// scripts without any waiter say nothing about waiting
 			for _, e := range evs {
-				if e.K == "start" {
+				if e.K == "start" || e.K == "startput" {
 					emit(script{Init: init, Events: evs})
 					return
 				}
@@ -578,12 +634,12 @@ func freeRound(backend string, s kvs.Storage, seed int64, run *report.Run) []frF
 }
 
 func buildScripts(run *report.Run) []script {
-	depth := run.Pick(5, 6)
+	depth := run.Pick(4, 6)
 	var scripts []script
 	enumerate(depth, func(s script) { scripts = append(scripts, s) })
 	// random deeper scripts
 	rng := rand.New(rand.NewSource(run.Seed()))
-	for i := 0; i < run.Pick(20000, 400000); i++ {
+	for i := 0; i < run.Pick(300000, 1500000); i++ {
 		n := depth + 1 + rng.Intn(6)
 		var evs []ev
 		for len(evs) < n {
@@ -621,7 +677,60 @@ func TestChild(t *testing.T) {
 	shard.Emit(res)
 }
 
+// burstRound: W waiters call WaitForVersionChange(k, current version) at the same moment as one writer
+// mutates k. Whatever the interleaving of the waiters' check / park and the mutation, the state is stable
+// afterwards and differs from what the waiters were given, so every one of them must return (nil, or
+// ErrNotExist after a Delete). A waiter that is still parked has missed the change between its check and
+// its parking. Decided by a watchdog that is 5 orders of magnitude above the healthy time.
+func burstRound(backend string, s kvs.Storage, seed int64) *frFinding {
+	bg := context.Background()
+	r0, err := s.Put(bg, kvs.Record{Key: "b", Value: []byte("0")})
+	if err != nil {
+		return nil
+	}
+	W := 4 + int(seed%13)
+	start := make(chan struct{})
+	res := make(chan error, W)
+	var ready sync.WaitGroup
+	for i := 0; i < W; i++ {
+		ready.Add(1)
+		go func() {
+			ready.Done()
+			<-start
+			res <- s.WaitForVersionChange(bg, "b", r0.Version)
+		}()
+	}
+	ready.Wait()
+	del := seed%5 == 0
+	close(start)
+	if seed%3 == 0 {
+		runtime.Gosched()
+	}
+	if del {
+		_ = s.Delete(bg, "b")
+	} else if seed%2 == 0 {
+		_, _ = s.Put(bg, kvs.Record{Key: "b", Value: []byte("1")})
+	} else {
+		_, _ = s.CasByVersion(bg, kvs.Record{Key: "b", Value: []byte("1"), Version: r0.Version})
+	}
+	deadline := time.After(10 * time.Second)
+	for i := 0; i < W; i++ {
+		select {
+		case e := <-res:
+			c := hist.Classify(e)
+			if (del && c != hist.ENotExist) || (!del && c != hist.ENil) {
+				return &frFinding{backend + "/wait/burst-wrong-result", fmt.Sprintf("a waiter racing one mutation returned %v (mutation was a delete: %v)", e, del), frWitness{Backend: backend, Seed: seed}}
+			}
+		case <-deadline:
+			return &frFinding{backend + "/wait/missed-change-between-check-and-park", fmt.Sprintf("%d of %d waiters that started together with a single mutation of their key are still parked 10 s after it (healthy: microseconds): the change fell between their check and their parking", W-i, W), frWitness{Backend: backend, Seed: seed}}
+		}
+	}
+	return nil
+}
+
 // ------------------------------------------------------------------ driver
+
+const burstsPerRound = 60
 
 func TestCheck(t *testing.T) {
 	run := report.New("C07", "exploration")
@@ -632,7 +741,7 @@ func TestCheck(t *testing.T) {
 		}
 		run.Finish(t)
 	})
-	run.Rule("scripted: every legal script to the depth bound over {start waiter (key1 cur/stale/unknown, key2 cur; <=3 alive), cancel waiter i, Put k1/k2, PutMany k1 / k1+k2, CAS ok, CAS conflict, Delete k1/k2, Create} from 2 initial states, in a synctest bubble; after EVERY event quiescence, then each waiter must be exactly parked / nil / ErrNotExist / ctx error per model and the waiter table must equal the parked set; free-running: 3 writers + 6 waiters + cancellers on 2 keys per round, waiter returns checked by porcupine as read-like operations, final mutation must release all. distinct = distinct (event kind, parked-waiter multiset, number of present keys) classes observed at quiescent points + distinct free-running rounds")
+	run.Rule("scripted: every legal script to the depth bound over {start waiter (key1 cur/stale/unknown, key2 cur; <=3 alive), cancel waiter i, cancel+Put+newcomer without quiescence in between, start+Put without quiescence, Put k1/k2, PutMany k1 / k1+k2, CAS ok, CAS conflict, Delete k1/k2, Create} from 2 initial states, in a synctest bubble; after EVERY event quiescence, then each waiter must be exactly parked / nil / ErrNotExist / ctx error per model and the waiter table must equal the parked set; free-running: 3 writers + 6 waiters + cancellers on 2 keys per round, waiter returns checked by porcupine as read-like operations, final mutation must release all; burst rounds: 4-16 waiters on the current version start together with one mutation and must all return. distinct = distinct (event kind, parked-waiter multiset, number of present keys) classes observed at quiescent points + distinct free-running rounds")
 	run.Assume("scripted part: frozen virtual time, records without expiry")
 	run.Assume("free-running 'never misses' uses a 20 s watchdog against a healthy release time of microseconds (inmem) / <=100 ms (Redis polling)")
 
@@ -640,7 +749,7 @@ func TestCheck(t *testing.T) {
 		replay(t, run, p)
 		return
 	}
-	depth := run.Pick(5, 6)
+	depth := run.Pick(4, 6)
 	run.Note("script_depth", depth)
 	scripts := buildScripts(run)
 	run.Note("scripts", len(scripts))
@@ -691,6 +800,14 @@ func TestCheck(t *testing.T) {
 						run.DistinctStr(fmt.Sprintf("free|%s|%d", backend, seed))
 						for _, f := range freeRound(backend, s, seed, run) {
 							run.Violation(f.sig, f.what, f.w)
+						}
+						if backend == "inmem" {
+							for b := 0; b < burstsPerRound && run.Violations() == 0; b++ {
+								run.Add("burst_rounds", 1)
+								if f := burstRound(backend, inmem.New(), seed*1000+int64(b)); f != nil {
+									run.Violation(f.sig, f.what, f.w)
+								}
+							}
 						}
 					}
 				}()
